@@ -748,7 +748,8 @@ class _Simu(_IObserver, _params.Updatable, ABC):
             coord_e_pg = groupElem.Get_GaussCoordinates_e_pg(matrixType)
             wJ_e_pg = groupElem.Get_weightedJacobian_e_pg(matrixType)
             rho_e_pg = FeArray.broadcast(self.rho, *wJ_e_pg.shape[:2])
-            contrib = (rho_e_pg * wJ_e_pg * coord_e_pg / mass).sum()
+            # summed over the elements and the integration points, per coordinate
+            contrib = (rho_e_pg * wJ_e_pg * coord_e_pg / mass).sum(axis=(0, 1))
             if self.dim == 2:
                 contrib *= self.model.thickness
             center += contrib
